@@ -230,7 +230,7 @@ def run(chk, only=None):
         raise vlib.Broken("At/LockCases.v does not compile:\n" + out_cases[-1500:])
     secs = 0.0
     if only is None:
-        sz = dict(n=240, m=40, f=6) if chk.tier == "quick" else dict(n=5000, m=800, f=60)
+        sz = dict(n=400, m=60, f=6) if chk.tier == "quick" else dict(n=6000, m=900, f=60)
         cases, secs = U.run_atp(chk, prop="c03", seed=chk.seed, **sz)
     else:
         cases = U.replay_atp(chk, only)
